@@ -10,5 +10,12 @@ CONSTANTS
   QCap = 2
   Dev_ProxySectionsNotAtomic = FALSE
   Dev_SendAfterSnapshot = FALSE
-INVARIANTS TypeOK NoDuplicate InOrderNoGap Complete NoForeignSignal ClosedAfterCancel NothingAfterUnregisterAck OthersUndisturbed AtMostOneRegistration NoLeak
+  Objects = {"o1"}
+  ObjOf <- AllO1
+  Devs = {}
+  Probe <- NoProbe
+  Failing = {}
+  Inject <- NoInject
+  Rogue = {}
+INVARIANTS TypeOK NoDuplicate InOrderNoGap Complete NoForeignSignal ClosedAfterCancel NothingAfterUnregisterAck OthersUndisturbed AtMostOneRegistration NoLeak RemovedAtMostOnce NoDeadRegistration
 CHECK_DEADLOCK FALSE
